@@ -313,10 +313,20 @@ def run(ctx):
     r1 = max(outs[1]["runs"], key=lambda r: len(r["script"]))
     ctx.sample(dict(config="depth2", script=r1["script"], last_state=r1["trace"][-1][1], ended=r1["err"] or "final time"))
     ctx.exhaustive = False
+    if not ctx.quick:
+        # the lifecycle of a whole run (prepare_simulation chain, exports, after_simulation) is validated in the
+        # thorough tier: spec/sys/Simulation.tla, trace/T_Simulation.tla, trace/M_Simulation.tla
+        from . import sim_lifecycle
+
+        sim_lifecycle.run(ctx)
 
 
 def replay(ctx, body):
     rec = body["record"]
+    if rec.get("kind") == "sim_lifecycle":
+        from . import sim_lifecycle
+
+        return sim_lifecycle.replay(ctx, body)
     c = rec["config"]
     for k in ("over", "under", "recomp"):
         c[k] = tuple(c[k])
